@@ -977,6 +977,49 @@ def spec_has_union(spec, seen=None) -> bool:
     return any(spec_has_union(c, seen) for c in spec.children)
 
 
+NUMERIC_SCALARS = {"int", "float", "bool", "decimal", "fraction", "complex"}
+
+
+def scalars_in(ty, acc=None):
+    acc = acc if acc is not None else set()
+    k = ty[0]
+    if k == "scalar":
+        acc.add(ty[1])
+    elif k == "literal":
+        for v in ty[1]:
+            if v[0] in ("i", "b", "f"):
+                acc.add("int")
+    elif k == "iter":
+        scalars_in(ty[3], acc)
+    elif k in ("union", "tuple"):
+        for t in ty[1]:
+            scalars_in(t, acc)
+    elif k == "dict":
+        scalars_in(ty[1], acc)
+        scalars_in(ty[2], acc)
+    return acc
+
+
+def numeric_mix(ty) -> bool:
+    """a set element / dict key type that can LOAD both a numeric stdlib instance (Decimal, Fraction, complex) and another
+    number: Python merges Decimal(1) / complex(1) with 1, the model's `==` does not relate an atom to a number"""
+    k = ty[0]
+    if k == "iter":
+        if ty[1] in ("set", "frozenset"):
+            sc = scalars_in(ty[3]) & NUMERIC_SCALARS
+            if sc & {"decimal", "fraction", "complex"} and len(sc) > 1:
+                return True
+        return numeric_mix(ty[3])
+    if k == "dict":
+        sc = scalars_in(ty[1]) & NUMERIC_SCALARS
+        if sc & {"decimal", "fraction", "complex"} and len(sc) > 1:
+            return True
+        return numeric_mix(ty[1]) or numeric_mix(ty[2])
+    if k in ("union", "tuple"):
+        return any(numeric_mix(t) for t in ty[1])
+    return False
+
+
 def ty_is_eq_sensitive(ty) -> bool:
     """does the type compare data with `==` (Literal membership, set/dict-key insertion)?"""
     k = ty[0]
@@ -1083,7 +1126,8 @@ class Engine:
                 ev0 = enc(datum)
                 # a one-shot iterator is consumed by the first union case that iterates it: a stateful effect the
                 # (pure) model cannot exhibit
-                in_model = faithful(ev0, ty_is_eq_sensitive(spec.ty)) and not (has_iter(ev0) and spec_has_union(spec))
+                in_model = faithful(ev0, ty_is_eq_sensitive(spec.ty)) and not (has_iter(ev0) and spec_has_union(spec)) \
+                    and not numeric_mix(spec.ty)
                 if not in_model:
                     ctx.dist["outside-model-universe"] += 1
                 for (m, s) in configs:
